@@ -13,6 +13,7 @@
   No Mathlib import.
 -/
 import DateutilVerif.Model.ICal
+import DateutilVerif.Model.StrPy
 
 namespace RRuleStr
 open ICal (isSpace upper splitOnChar pyInt rstrip strip isDigit splitLines)
@@ -358,26 +359,20 @@ def parseRfc (s0 : List Char) (o : Opts) (dtstartKw : Bool := false) : Py.R Pars
 `parseRfc` keeps the parameters of DTSTART / EXDATE lines; which zone NAME is handed to the `tzids` lookup for such a line is
 a function of the ORIGINAL-case text (the name table), the `unfold` flag and the line's (upper-cased) parameters. -/
 
-/-- `re.sub(r'\r?\n ', '', s)`: what `_parse_rfc` does to the text before collecting TZID names when `unfold` is set -/
-def stripFolds : List Char → List Char
-  | '\r' :: '\n' :: ' ' :: r => stripFolds r
-  | '\n' :: ' ' :: r => stripFolds r
-  | c :: r => c :: stripFolds r
-  | [] => []
+/-- the pattern `r'\r?\n '` -/
+def foldPattern : List StrPy.ReItem := [.opt '\r', .chr '\n', .chr ' ']
+
+/-- `re.sub(r'\r?\n ', '', s)`: what `_parse_rfc` does to the text before collecting TZID names when `unfold` is set
+    (`StrPy.subDelete`: the deterministic matcher of Model/StrPy.lean; `stripFolds_cons*` in Proofs/RRuleStrGen.lean are its
+    three defining equations) -/
+def stripFolds (s : List Char) : List Char := StrPy.subDelete false foldPattern s
+
+/-- the pattern `'TZID=(?P<name>[^:;]+)[:;]'` -/
+def tzidPattern : List StrPy.ReItem :=
+  [.chr 'T', .chr 'Z', .chr 'I', .chr 'D', .chr '=', .plusNot [':', ';'], .oneOf [':', ';']]
 
 /-- `re.findall('TZID=(?P<name>[^:;]+)[:;]', text, re.IGNORECASE)` (ASCII case folding): left to right, non-overlapping -/
-def findTzidsAux : Nat → List Char → List (List Char)
-  | 0, _ => []
-  | _, [] => []
-  | fuel + 1, c :: r =>
-    if upper ((c :: r).take 5) == lit "TZID=" then
-      let rest := (c :: r).drop 5
-      let name := rest.takeWhile (fun d => d != ':' && d != ';')
-      if !name.isEmpty && name.length < rest.length then name :: findTzidsAux fuel (rest.drop (name.length + 1))
-      else findTzidsAux fuel r
-    else findTzidsAux fuel r
-
-def findTzids (s : List Char) : List (List Char) := findTzidsAux (s.length + 1) s
+def findTzids (s : List Char) : List (List Char) := StrPy.findall true tzidPattern s
 
 /-- `TZID_NAMES`: upper-cased name → name as written (a later occurrence overwrites an earlier one) -/
 def tzidTable (s0 : List Char) (unfold : Bool) : List (List Char × List Char) :=
@@ -387,14 +382,7 @@ def tzidLookup (t : List (List Char × List Char)) (k : List Char) : Option (Lis
   (t.reverse.find? (·.1 == k)).map (·.2)
 
 /-- `parm.split('TZID=')[-1]` -/
-def afterLastTzidAux : Nat → List Char → List Char → List Char
-  | 0, _, best => best
-  | _, [], best => best
-  | fuel + 1, c :: r, best =>
-    if startsWith (c :: r) (lit "TZID=") then afterLastTzidAux fuel ((c :: r).drop 5) ((c :: r).drop 5)
-    else afterLastTzidAux fuel r best
-
-def afterLastTzid (p : List Char) : List Char := afterLastTzidAux (p.length + 1) p p
+def afterLastTzid (p : List Char) : List Char := StrPy.afterLast (lit "TZID=") p
 
 /-- the loop over `parms` in `_parse_date_value`: the name handed to the `tzids` lookup (`none`: no TZID parameter, or
     `rule_tzids[...]` raised KeyError for every one of them and the parameter was skipped — silently no zone) -/
@@ -420,6 +408,7 @@ structure StrIn where
   count : Option Int
   untilV : Option (Nat × Nat × Nat × Nat × Nat × Nat)
   orig : RArgs                                             -- `_original_rule` (only the BY-parts)
+  fwd : Int := 0                                           -- `calendar.firstweekday()` at the time of the `str()` call
   deriving Repr, Inhabited
 
 def FREQNAMES : List (List Char) :=
@@ -451,7 +440,7 @@ def byDayPart (v : Option (List WDay)) : List (List Char) :=
 def partsOf (x : StrIn) : List (List Char) :=
   [lit "FREQ=" ++ FREQNAMES.getD x.freq []] ++
   (if x.interval != 1 then [lit "INTERVAL=" ++ showInt x.interval] else []) ++
-  (if x.wkst != 0 then [lit "WKST=" ++ wdName x.wkst] else []) ++
+  (if x.wkst != 0 || x.fwd != 0 then [lit "WKST=" ++ wdName x.wkst] else []) ++   -- `if self._wkst or calendar.firstweekday():`
   (match x.count with | some c => [lit "COUNT=" ++ showInt c] | none => []) ++
   (match x.untilV with | some t => [lit "UNTIL=" ++ showDT t] | none => []) ++
   partOf "BYSETPOS" x.orig.bysetpos ++ partOf "BYMONTH" x.orig.bymonth ++
